@@ -158,11 +158,14 @@ def token_roles(ctx: Ctx):
     lc = ctx.main
     L = ctx.lexicon(lc.name)
     roles = {}
+    from .lexrules import remapped_tokens
+    remap = {(rule, lit): tok for tok, (rule, lit) in remapped_tokens(lc).items()}
     for word in ("and", "or", "not"):
         r = L.select(word)
         if r is None or r[1] != len(word):
             raise AnalysisError(f"the word {word!r} is not lexed as one token")
-        roles[word] = lc.rules[r[0]].name
+        name = lc.rules[r[0]].name
+        roles[word] = remap.get((name, word), name)
     return roles
 
 
